@@ -471,14 +471,19 @@ fn convert_expr_inner(ctx: &mut ResolveContext, e_id: ExprNodeId, toplevel: bool
             Expr::If(new_cond, new_then, new_else).into_id(loc)
         }
         Expr::Block(body) => {
+            // Stage sections (`#stage(..)`) wrap the chain of top-level definitions in
+            // blocks, escapes and brackets: the definitions in them are still top-level.
+            ctx.at_toplevel = toplevel;
             let new_body = body.map(|e| convert_expr(ctx, e));
             Expr::Block(new_body).into_id(loc)
         }
         Expr::Escape(e) => {
+            ctx.at_toplevel = toplevel;
             let new_e = convert_expr(ctx, e);
             Expr::Escape(new_e).into_id(loc)
         }
         Expr::Bracket(e) => {
+            ctx.at_toplevel = toplevel;
             let new_e = convert_expr(ctx, e);
             Expr::Bracket(new_e).into_id(loc)
         }
